@@ -109,16 +109,17 @@ def gen_tree(rng: random.Random, depth: int, lazy_ok: bool):
                               ([("PExactItemCount", n())] if rng.random() < 0.1 else []))
                    for _ in range(rng.choice([0, 0, 1, 2]))]
     r = rng.random()
+    aps = lambda: [("APred", N(rng.choice([0, 1])))] if rng.random() < 0.12 else []
     if r < 0.12:
-        return ("ListV", sub(), cps(), [], None)
+        return ("ListV", sub(), cps(), aps(), None)
     if r < 0.20:
-        return ("UTupleV", sub(), cps(), [], rng.choice([None, Some(("CoTupleOrList",))]))
+        return ("UTupleV", sub(), cps(), aps(), rng.choice([None, Some(("CoTupleOrList",))]))
     if r < 0.30:
         k = rng.choice([1, 1, 2, 3]) if rng.random() < 0.93 else 0
         return ("NTupleV", [sub() for _ in range(k)], None, None)
     if r < 0.38:
         mps = [rng.choice([("PMinKeys", n()), ("PMaxKeys", n())]) for _ in range(rng.choice([0, 0, 1, 2]))]
-        return ("MapV", ("Scalar", ("KStr",), None, [], [], []), sub(), mps, [], None)
+        return ("MapV", ("Scalar", ("KStr",), None, [], [], []), sub(), mps, aps(), None)
     if r < 0.56:
         keys = rng.sample(LABELS, rng.choice([0, 1, 2, 3, 4, 5]))
         if rng.random() < 0.9:     # colliding str() forms (1 / "1" / True -> "True") are a recorded finding: keep them rare
